@@ -781,12 +781,12 @@ def gen_edit(rng, prog, counter, weights=None):
             # a recursive function: its own definition would be decorated while its name is bound to the untracked object)
             declared_target = any(c["to"] == nd["id"] and c["form"] == "declared" for a in nodes for c in a["calls"]) \
                 or in_cycle(prog, nd["id"])
-            if nd["kind"] == "memento" and any(a.get("declobj") and in_cycle(prog, a["id"]) and any(
+            if nd["kind"] == "memento" and any(a.get("declobj") and any(
                     c["to"] == nd["id"] and c["form"] == "declared" for c in a["calls"]) for a in nodes):
-                # the function is named as an OBJECT in dependencies=[...] of a caller that can reach itself (it calls itself,
-                # or the function calls it back): once the function is plain the caller cannot even be redefined - its old
-                # definition, still bound while the new decorator runs, is reached from the new one, and the old declared
-                # dependency no longer names a memento function (DESIGN 9.3, observation b)
+                # the function is named as an OBJECT in dependencies=[...] of some caller: once it is plain, the caller's OLD
+                # definition - still bound until its own cell is re-run - holds a declared dependency that no longer names a
+                # memento function, and every decorator that reaches it meanwhile (the caller's own when it can reach itself,
+                # or that of any function defined before it) fails (DESIGN 9.3, observation b)
                 continue
             if nd["kind"] == "memento":
                 to = "plain" if r < 0.7 or declared_target else "foreign"
